@@ -13,6 +13,7 @@ from hypothesis import strategies as st
 
 from vlib.core import Sub, REPO_DIR
 from vlib import gens
+from checks.c20parts._walkguard import guard
 
 ASSUMPTIONS = [
     'Material.parse tokenizes with allow_escapes=False, so a backslash is an ordinary character and IS generated in '
@@ -287,7 +288,9 @@ def execute(desc, ctx):
         with open(os.path.join(REPO_DIR, desc['file']), encoding='utf8') as f:
             src = f.read()
         mat = Material.parse(src, desc['file'])
-        want = walk(mat)
+        want = guard(ctx, 'sample_parse', walk, mat)
+        if want is None:
+            return
         via = 'str'
         ctx.label('sample_file')
         if want['proxies'] or want['blocks']:
@@ -299,17 +302,19 @@ def execute(desc, ctx):
         want = {'shader': desc['shader'], 'params': [list(p) for p in desc['params']],
                 'blocks': [_shape_desc(b) for b in desc['blocks']], 'proxies': [_shape_desc(p) for p in desc['proxies']]}
         via = desc['via']
-        dd = diff(want, walk(mat))
+        dd = guard(ctx, 'constructors', lambda: diff(want, walk(mat)))
         ctx.check(not dd, 'constructors', f'constructed Material differs from the request: {dd!r}')
 
     buf = io.StringIO()
     mat.export(buf)
     text = buf.getvalue()
-    dd = diff(want, walk(mat))
+    dd = guard(ctx, 'no_mutation', lambda: diff(want, walk(mat)))
     ctx.check(not dd, 'no_mutation', f'export() changed the Material: {dd!r}')
 
     parsed = Material.parse(_deliver(text, via), 'roundtrip.vmt')
-    dd = diff(want, walk(parsed))
+    dd = guard(ctx, 'roundtrip', lambda: diff(want, walk(parsed)))
+    if dd is None:
+        return
     fields = sorted(f for f, _, _ in dd)
     if not ctx.check(not dd, 'roundtrip',
                      f'Material.parse(export(m)) differs in {fields}:\n'
